@@ -28,7 +28,8 @@ class Mapping:
     """
 
     def __init__(self, mapping):
-        self.mapping = mapping
+        # A copy: the caller's own sequence may change later.
+        self.mapping = tuple(mapping)
         self.n_inputs = max(mapping) + 1
         self.n_outputs = len(mapping)
 
